@@ -19,6 +19,7 @@ import JSV.Proofs.InfSound
 import JSV.Proofs.InfNamed
 import JSV.Proofs.InfTable
 import JSV.Proofs.InfEmbSound
+import JSV.Proofs.InfEmbNamed
 import JSV.Proofs.EncEmbCons
 namespace JSV.C04
 open JSV Go EncJson Spec
@@ -431,7 +432,7 @@ open EncJsonEmb in
     by its own, and `additionalProperties: false` then rejects the promoted members.
 
     Partial, what is missing: types outside `InDomainE`: D14 (a JSON name shared by two Go names), D16 (tagged /
-    non-struct embedded fields), named types in non-embedded positions (as in `infer_sound`). -/
+    non-struct embedded fields); declared types in non-embedded positions are in `infer_soundE_named_partial`. -/
 theorem infer_soundE_partial (opts : IOpts) (fuel : Nat) (T : GoTypeE) (st : Store) (id : NodeId) (st' : Store)
     (re : String → String → Bool) (hnfs : opts.nullForSlices = true) (hno : EmbNotInTable opts T)
     (hdom : InDomainE T = true) (h : forTypeE opts fuel T st = .ok (some id, st')) (v : GoValue) (hv : HasTypeE T v)
@@ -441,6 +442,44 @@ theorem infer_soundE_partial (opts : IOpts) (fuel : Nat) (T : GoTypeE) (st : Sto
   cases hid
   rw [hnfs] at hm
   exact valid_iff_isSome.1 ((soundE (re := re) (wt T) T (Nat.le_refl _) hdom false id hm fuel' [] hf).2 v hv)
+
+open EncJsonEmb in
+/-- **main, with embedded fields and declared types (partial)**: as `infer_soundE_partial`, with declared types
+    (`type Celsius float64`, `type Point struct{…}` …) in NON-embedded positions anywhere in `T`: field types, element
+    types, the types of the fields of embedded structs.  `InDomainEN T`: the type with these declared types replaced by
+    their underlying types (`eraseE`; the declared types of embedded fields stay) is in `InDomainE`; `NamedOkE opts [] T`
+    (decidable): none of them has an entry in the type table, the underlying types are basic kinds, slices, arrays, maps or
+    structs, no name occurs twice along a root-to-leaf path.  A value of a declared type is a value of its underlying type
+    and is encoded like it.
+
+    Partial, what is missing: as `infer_soundE_partial` (D14, D16, overrides of embedded types), and declared types WITH
+    a type-table entry in non-embedded positions (`infer_sound_table_partial` has them for types without embedded
+    fields). -/
+theorem infer_soundE_named_partial (opts : IOpts) (fuel : Nat) (T : GoTypeE) (st : Store) (id : NodeId) (st' : Store)
+    (re : String → String → Bool) (hnfs : opts.nullForSlices = true) (hno : EmbNotInTable opts T)
+    (hdom : InDomainEN T = true) (hok : NamedOkE opts [] T = true)
+    (h : forTypeE opts fuel T st = .ok (some id, st')) (v : GoValue) (hv : HasTypeE T v)
+    (fuel' : Nat) (hf : depthE T ≤ fuel') :
+    Spec.valid (specEnvNoRefs st' re) fuel' id (encodeE T v) = some true := by
+  rw [forTypeE_erase opts fuel T st hok] at h
+  rw [← encodeE_erase]
+  exact infer_soundE_partial opts fuel (eraseE T) st id st' re hnfs (embNotInTable_erase opts T hno) hdom h v
+    ((hasTypeE_erase T v).2 hv) fuel' (Nat.le_trans (depthE_erase_le T) hf)
+
+open EncJsonEmb in
+/-- … and `ForType` never drops such a type -/
+theorem infer_someE_named (opts : IOpts) (fuel : Nat) (T : GoTypeE) (st : Store) (r : Option NodeId) (st' : Store)
+    (hdom : InDomainEN T = true) (hok : NamedOkE opts [] T = true) (h : forTypeE opts fuel T st = .ok (r, st')) :
+    ∃ id, r = some id := by
+  rw [forTypeE_erase opts fuel T st hok] at h
+  exact inferFuelE_some opts fuel (eraseE T) [] st r st' hdom h
+
+open EncJsonEmb in
+/-- the spec with embedded fields does not see declared types in non-embedded positions either -/
+theorem encJsonEmb_named_conservative (T : GoTypeE) :
+    (∀ v, HasTypeE (eraseE T) v ↔ HasTypeE T v) ∧ (∀ v, encodeE (eraseE T) v = encodeE T v) ∧
+    depthE (eraseE T) ≤ depthE T :=
+  ⟨hasTypeE_erase T, encodeE_erase T, depthE_erase_le T⟩
 
 open EncJsonEmb in
 /-- on the domain `ForType` never drops the type -/
@@ -529,6 +568,65 @@ example (id : NodeId) (st' : Store) (h : forTypeE {} 3 (embedValT tI tX tY tA) #
     dominates, isStructE, derefE, hIo.1, hIo.2, hX, hY, hA, fieldSkipped, isEmptyValue] using this
 
 end WitnessesE
+
+/-! ### … with declared types in non-embedded positions -/
+
+/-- `struct{ Inner; A Celsius "json:\"a\"" }` with `type Inner struct { X Count "json:\"x\""; Y string "json:\"y,omitempty\"" }`,
+    `type Count int`, `type Celsius float64` -/
+def embedNamedT (tI tX tY tA : String) : GoTypeE :=
+  .struct [emb "Inner" tI (.named "Inner" (.struct [fld "X" tX (.named "Count" (.basic "Int")), fld "Y" tY (.basic "String")])),
+           fld "A" tA (.named "Celsius" (.basic "Float64"))]
+
+open EncJsonEmb in
+theorem embedNamed_erase (tI tX tY tA : String) :
+    eraseE (embedNamedT tI tX tY tA) =
+      .struct [emb "Inner" tI (.named "Inner" (.struct [fld "X" tX (.basic "Int"), fld "Y" tY (.basic "String")])),
+               fld "A" tA (.basic "Float64")] := by
+  simp [embedNamedT, eraseE, eraseFieldsE, eraseEmbE, emb, fld]
+
+open EncJsonEmb in
+theorem embedNamed_namedOk (tI tX tY tA : String) : NamedOkE {} [] (embedNamedT tI tX tY tA) = true := by
+  simp [embedNamedT, NamedOkE, namedOkFieldsE, namedOkEmbE, emb, fld, namedShapeE, Json.lookup]
+
+section WitnessesEN
+open EncJsonEmb
+variable (tI tX tY tA : String)
+  (hI : tagLookup "json" tI = none)
+  (hX : fieldJSONInfo "X" tX = { name := "x" }) (hY : fieldJSONInfo "Y" tY = { name := "y", omitempty := true })
+  (hA : fieldJSONInfo "A" tA = { name := "a" })
+include hI hX hY hA
+
+theorem embedNamed_inDomain : InDomainEN (embedNamedT tI tX tY tA) = true := by
+  have v1 : validTagName "x" = true := by decide
+  have v2 : validTagName "y" = true := by decide
+  have v3 : validTagName "a" = true := by decide
+  have d1 : "Int" ∈ domainKinds := by decide
+  have d2 : "String" ∈ domainKinds := by decide
+  have d3 : "Float64" ∈ domainKinds := by decide
+  unfold InDomainEN
+  rw [embedNamed_erase]
+  simp [fld, emb, InDomainE, inDomainFieldsE, inDomainEmbE, namesOk, pairOk, live, jsonNameOf, allFields, embFields,
+    hI, hX, hY, hA, fieldTagOk, v1, v2, v3, d1, d2, d3]
+
+theorem embedNamed_hasType : HasTypeE (embedNamedT tI tX tY tA) (.struct [.struct [.int 1, .str ""], .float 20]) := by
+  have hIo := (fieldJSONInfo_untagged (g := "Inner") (tag := tI) (by rw [hI]; rfl))
+  simp [embedNamedT, fld, emb, HasTypeE, HasTypeFieldsE, HasTypeEmbE, classify, isStructE, derefE, hIo.1, hIo.2, hX, hY, hA,
+    basicHasType, intRange, floatKinds]
+  exact ⟨_, _, ⟨rfl, rfl⟩, by decide, by decide⟩
+
+/-- `infer_soundE_named_partial` applied: `{Inner: {X: 1, Y: ""}, A: 20}` marshals to `{"x":1,"a":20}`, which the inferred
+    schema accepts -/
+example (id : NodeId) (st' : Store) (h : forTypeE {} 4 (embedNamedT tI tX tY tA) #[] = .ok (some id, st')) :
+    Spec.valid (specEnvNoRefs st') 5 id (.obj [("x", .num 1), ("a", .num 20)]) = some true := by
+  have hIo := (fieldJSONInfo_untagged (g := "Inner") (tag := tI) (by rw [hI]; rfl))
+  have := infer_soundE_named_partial {} 4 _ #[] id st' (fun _ _ => false) rfl
+    ((embNotInTable_of_empty (opts := {}) (fun _ => rfl) _).1 _ (Nat.le_refl _))
+    (embedNamed_inDomain tI tX tY tA hI hX hY hA) (embedNamed_namedOk tI tX tY tA) h _
+    (embedNamed_hasType tI tX tY tA hI hX hY hA) 5
+    (by simp [embedNamedT, fld, emb, depthE, depthFieldsE])
+  simpa [embedNamedT, fld, emb, encodeE, encodeFieldsE, encodeEmbE, candidates, embCandidates, classify, mkTField, isDominant,
+    dominates, isStructE, derefE, hIo.1, hIo.2, hX, hY, hA, fieldSkipped, isEmptyValue] using this
+end WitnessesEN
 
 /-- outside the domain (known finding D14): in `struct{ Y string "json:\"x\""; Inner }` the JSON name `x` belongs to
     two Go names -/
